@@ -202,7 +202,7 @@ TD = [timedelta(days=1), timedelta(days=-400), timedelta(0)]
 
 def h_str_date(i0: int, i1: int, k: int, which: int) -> bool:
     """
-    pre: 0 <= i0 <= 4 and 0 <= i1 <= 4 and 0 <= k <= 11 and 0 <= which <= 8
+    pre: 0 <= i0 <= 4 and 0 <= i1 <= 4 and 0 <= k <= 11 and 0 <= which <= 13
     pre: H.fix(which=which)
     post: _
     """
@@ -215,7 +215,50 @@ def h_str_date(i0: int, i1: int, k: int, which: int) -> bool:
     return H.ok()
 
 
+def _strdate_table_body(i0, i1, k, which):
+    # a table as left operand is the same operation applied column by column - also for the typed columns whose + is their own (dates: + int adds days)
+    if which in (9, 10, 11):
+        dl = [H.pick(DM, i0 % 4), H.pick(DM, i1 % 4)]
+        if Vector(dl).schema().kind is not date: return None
+        kk = H.pick([0, 1, -1, 30, 366, -400], k % 6)
+        t = Table({'d': list(dl), 'n': [5, None]})
+        if which == 9:
+            shown = 'table(date, int) + %r' % kk
+            r = t + kk; want = [list(Vector(dl) + kk), list(Vector([5, None]) + kk)]
+        elif which == 10:
+            u = Table({'x': [kk, 3], 'y': [2, kk]})
+            shown = 'table(date, int) + table(int, int)'
+            r = t + u; want = [list(Vector(dl) + Vector([kk, 3])), list(Vector([5, None]) + Vector([2, kk]))]
+        else:
+            td = H.pick(TD, k % 3); t = Table({'d': list(dl), 'e': list(dl[::-1])})
+            if Vector(dl[::-1]).schema().kind is not date: return None
+            shown = 'table(date, date) - %r' % (td,)
+            r = t - td; want = [list(Vector(dl) - td), list(Vector(dl[::-1]) - td)]
+    else:
+        sl = [H.pick(SM, i0), H.pick(SM, i1)]
+        t = Table({'s': list(sl), 'u': ['q', 'r']})
+        if which == 12:
+            shown = "table(str, str) + 'z'"
+            r = t + 'z'; want = [[None if x is None else x + 'z' for x in sl], ['qz', 'rz']]
+        else:
+            kk = H.pick([0, 1, 2, 3], k % 4)
+            shown = 'table(str, str) * %d' % kk
+            r = t * kk; want = [[None if x is None else x * kk for x in sl], ['q' * kk, 'r' * kk]]
+    if not isinstance(r, Table): return H.fail('%s is not a table' % shown)
+    got = [list(col) for col in r.cols()]
+    if len(got) != 2 or not H.same_list(got[0], want[0]) or not H.same_list(got[1], want[1]):
+        return H.fail('%s: columns %r, the vector operation per column gives %r' % (shown, got, want))
+    why = H.rect(r) or H.all_truthful(r)
+    if why: return H.fail(why)
+    return True
+
+
 def _strdate_body(i0, i1, k, which):
+    if which >= 9:
+        try:
+            return _strdate_table_body(i0, i1, k, which)
+        except Exception as ex:
+            return H.fail('table case %d raised %r' % (which, ex))
     if which <= 2:
         vl = [H.pick(SM, i0), H.pick(SM, i1)]
         v = Vector(vl)
@@ -394,9 +437,9 @@ def obligations(tier):
         for tt in (False, True):
             obs.append(dict(name='table[%s,%s]' % (op, 'table' if tt else 'scalar'), fn='h_table', config={'op': op, 'tt': tt}, budget=90 if q else 400,
                             bounds='2x2 table of Optional[int] unbounded; right operand int scalar or 2x2 table', smoke=[[1, None, 3, 4, 2, 1]]))
-    for which in range(9):
+    for which in range(14):
         obs.append(dict(name='strdate[%d]' % which, fn='h_str_date', config={'which': which}, budget=40,
-                        bounds='2-element str/date vectors from menus incl. None; str + s, s + str, str * k, date + days (scalar, vector), date +- timedelta, date - date',
+                        bounds='2-element str/date vectors from menus incl. None; str + s, s + str, str * k, date + days (scalar, vector), date +- timedelta, date - date; 9-13: the same with a table (date/int, date/date, str/str columns) as left operand against a scalar or a table',
                         smoke=[[0, 3, 1, which]]))
     for kind in ('str', 'int', 'float', 'date'):
         names = method_names(kind)
